@@ -22,7 +22,8 @@
      Garble : Load ptr | CAS(nil, p) | Load ptr (after a lost CAS) | pool.Get()
               | fill the scratch + return the handle (the buffers are written by
               many statements; they are written by the one goroutine holding the
-              scratch, which is what C17_exclusive establishes)
+              scratch, which is what C17_exclusive establishes); a FAILING Garble
+              (OGarbleFail) takes the same steps and ends by putting the scratch back
      Release: g.pool == nil -> return | g.pool.Put(g.scratch) | clear the fields
      Eval   : first read of the tables | last read of the tables (a result is
               well-defined only if both see the same garbling)
@@ -32,12 +33,14 @@ Import ListNotations.
 
 Inductive op :=
 | OGarble (seed : nat)
+| OGarbleFail (seed site : nat)  (* a Garble that fails at error site [site], see GFill below *)
 | ORelease (hi : nat)          (* hi = index of the handle among those this goroutine created *)
 | OEval (hi : nat)
 | OCompute (x : nat).
 
 Inductive res :=
 | RGarble (seed : nat)         (* the garbling written under this seed was returned *)
+| RGarbleErr                   (* Garble returned (nil, err) *)
 | RUnit
 | REval (gid : nat)            (* evaluated the garbling gid from first to last read *)
 | REvalTorn                    (* the tables changed during the evaluation *)
@@ -69,7 +72,10 @@ Record state := mkState {
   s_pool     : nat -> list nat;
   s_contents : nat -> nat;
   s_nscr     : nat;
-  s_thr      : nat -> thread
+  s_thr      : nat -> thread;
+  s_dput     : bool             (* configuration, never changes: false = Garble as it is;
+                                   true = the regression variant whose error returns inside
+                                   the two loops Put the scratch twice *)
 }.
 
 Definition upd {A} (f : nat -> A) (i : nat) (v : A) : nat -> A :=
@@ -83,7 +89,7 @@ Fixpoint remove_nth (i : nat) (l : list nat) : list nat :=
   end.
 
 Definition set_thr (st : state) (t : nat) (th : thread) : state :=
-  mkState (s_ptr st) (s_npools st) (s_pool st) (s_contents st) (s_nscr st) (upd (s_thr st) t th).
+  mkState (s_ptr st) (s_npools st) (s_pool st) (s_contents st) (s_nscr st) (upd (s_thr st) t th) (s_dput st).
 
 Definition th_pc (th : thread) (p : pc) : thread :=
   mkThread (t_prog th) p (t_nh th) (t_h th) (t_res th).
@@ -107,14 +113,14 @@ Definition step (t choice : nat) (st : state) : option state :=
   | Idle =>
       match t_prog th with
       | [] => None
-      | OGarble seed :: _ =>
+      | OGarble seed :: _ | OGarbleFail seed _ :: _ =>
           (* garbleScratchPool: c.garblePool.Load() *)
           match s_ptr st with
           | Some p => Some (set_thr st t (th_pc th (GGet seed p)))
           | None =>
               let p := s_npools st in
               Some (mkState (s_ptr st) (S p) (s_pool st) (s_contents st) (s_nscr st)
-                            (upd (s_thr st) t (th_pc th (GCas seed p))))
+                            (upd (s_thr st) t (th_pc th (GCas seed p))) (s_dput st))
           end
       | ORelease hi :: _ =>
           let h := t_h th hi in
@@ -124,7 +130,7 @@ Definition step (t choice : nat) (st : state) : option state :=
               if hi <? t_nh th then
                 (* g.pool.Put(g.scratch) *)
                 Some (mkState (s_ptr st) (s_npools st) (upd (s_pool st) p (s_pool st p ++ [h_scr h]))
-                              (s_contents st) (s_nscr st) (upd (s_thr st) t (th_pc th (RClear hi))))
+                              (s_contents st) (s_nscr st) (upd (s_thr st) t (th_pc th (RClear hi))) (s_dput st))
               else Some (set_thr st t (th_ret th RUnit))                (* g == nil *)
           end
       | OEval hi :: _ =>
@@ -140,7 +146,7 @@ Definition step (t choice : nat) (st : state) : option state :=
   | GCas seed p =>
       match s_ptr st with
       | None => Some (mkState (Some p) (s_npools st) (s_pool st) (s_contents st) (s_nscr st)
-                              (upd (s_thr st) t (th_pc th (GGet seed p))))
+                              (upd (s_thr st) t (th_pc th (GGet seed p))) (s_dput st))
       | Some _ => Some (set_thr st t (th_pc th (GLoad seed)))
       end
   | GLoad seed =>
@@ -153,17 +159,30 @@ Definition step (t choice : nat) (st : state) : option state :=
       if choice <? length items then
         let s := nth choice items 0 in
         Some (mkState (s_ptr st) (s_npools st) (upd (s_pool st) p (remove_nth choice items))
-                      (s_contents st) (s_nscr st) (upd (s_thr st) t (th_pc th (GFill seed p s))))
+                      (s_contents st) (s_nscr st) (upd (s_thr st) t (th_pc th (GFill seed p s))) (s_dput st))
       else
         let s := s_nscr st in
         Some (mkState (s_ptr st) (s_npools st) (s_pool st) (upd (s_contents st) s 0) (S s)
-                      (upd (s_thr st) t (th_pc th (GFill seed p s))))
+                      (upd (s_thr st) t (th_pc th (GFill seed p s))) (s_dput st))
   | GFill seed p s =>
-      let h := mkHandle s (Some p) seed in
-      let th' := mkThread (tl (t_prog th)) Idle (S (t_nh th)) (upd (t_h th) (t_nh th) h)
-                          (RGarble seed :: t_res th) in
-      Some (mkState (s_ptr st) (s_npools st) (s_pool st) (upd (s_contents st) s seed) (s_nscr st)
-                    (upd (s_thr st) t th'))
+      match t_prog th with
+      | OGarbleFail _ site :: _ =>
+          (* Garble fails.  Error sites of Circuit.Garble, each "pool.Put(scratch); return nil, err":
+             0 ot.NewLabel(rand) for R | 1 aes.NewCipher(key) | 2 makeLabels in the input-wire
+             loop | 3 gate.garbleInto in the gate loop.  At sites 2 and 3 part of the buffers has
+             been written.  The scratch goes back to the pool ONCE (twice at sites 2, 3 in the
+             regression variant) and no handle is returned. *)
+          let puts := if s_dput st && (2 <=? site) then [s; s] else [s] in
+          Some (mkState (s_ptr st) (s_npools st) (upd (s_pool st) p (s_pool st p ++ puts))
+                        (if 2 <=? site then upd (s_contents st) s seed else s_contents st) (s_nscr st)
+                        (upd (s_thr st) t (th_ret th RGarbleErr)) (s_dput st))
+      | _ =>
+          let h := mkHandle s (Some p) seed in
+          let th' := mkThread (tl (t_prog th)) Idle (S (t_nh th)) (upd (t_h th) (t_nh th) h)
+                              (RGarble seed :: t_res th) in
+          Some (mkState (s_ptr st) (s_npools st) (s_pool st) (upd (s_contents st) s seed) (s_nscr st)
+                        (upd (s_thr st) t th') (s_dput st))
+      end
   | RClear hi =>
       let h := t_h th hi in
       let th' := mkThread (tl (t_prog th)) Idle (t_nh th)
@@ -183,32 +202,34 @@ Definition exec (st : state) (it : sitem) : state :=
   | SThread t choice => match step t choice st with Some st' => st' | None => st end
   | SDrop p i =>
       mkState (s_ptr st) (s_npools st) (upd (s_pool st) p (remove_nth i (s_pool st p)))
-              (s_contents st) (s_nscr st) (s_thr st)
+              (s_contents st) (s_nscr st) (s_thr st) (s_dput st)
   end.
 
 Definition run_from (st : state) (sched : list sitem) : state := fold_left exec sched st.
 
 Definition no_handle : handle := mkHandle 0 None 0.
 Definition init_thread (prog : list op) : thread := mkThread prog Idle 0 (fun _ => no_handle) [].
-Definition init (progs : list (list op)) : state :=
-  mkState None 0 (fun _ => []) (fun _ => 0) 0 (fun t => init_thread (nth t progs [])).
+Definition init_cfg (dput : bool) (progs : list (list op)) : state :=
+  mkState None 0 (fun _ => []) (fun _ => 0) 0 (fun t => init_thread (nth t progs [])) dput.
+Definition init (progs : list (list op)) : state := init_cfg false progs.
 
-(* ---- a call run alone: the results a goroutine's program produces when no
-   other goroutine exists.  A handle list records (seed, released?). *)
-Fixpoint solo (prog : list op) (hs : list (nat * bool)) : list res :=
+(* ---- a program run alone: the results a goroutine's program produces when no
+   other goroutine exists.  Handles: [nh] created so far, [hs hi] = (seed of the
+   garbling, released?).  Garble returns the garbling of its own seed, Eval of
+   an unreleased handle the garbling of that handle, Compute its input's value:
+   every result depends only on the call's own (seed, handle, input). *)
+Fixpoint solo (prog : list op) (nh : nat) (hs : nat -> nat * bool) : list res :=
   match prog with
   | [] => []
-  | OGarble seed :: r => RGarble seed :: solo r (hs ++ [(seed, false)])
+  | OGarble seed :: r => RGarble seed :: solo r (S nh) (upd hs nh (seed, false))
+  | OGarbleFail _ _ :: r => RGarbleErr :: solo r nh hs
   | ORelease hi :: r =>
-      RUnit :: solo r (map (fun '(i, sb) => if i =? hi then (fst sb, true) else sb)
-                           (combine (seq 0 (length hs)) hs))
+      RUnit :: solo r nh (if (hi <? nh) && negb (snd (hs hi)) then upd hs hi (fst (hs hi), true) else hs)
   | OEval hi :: r =>
-      match nth_error hs hi with
-      | Some (seed, false) => REval seed :: solo r hs
-      | _ => RErr :: solo r hs
-      end
-  | OCompute x :: r => RCompute x :: solo r hs
+      (if (hi <? nh) && negb (snd (hs hi)) then REval (fst (hs hi)) else RErr) :: solo r nh hs
+  | OCompute x :: r => RCompute x :: solo r nh hs
   end.
+Definition solo_run (prog : list op) : list res := solo prog 0 (fun _ => (0, true)).
 
 (* ---- exclusivity as a decidable predicate on a state with N goroutines *)
 Definition live_scrs (th : thread) : list nat :=
@@ -239,7 +260,8 @@ Definition exclusive (N : nat) (st : state) : bool := nodupb (owners N st).
 Inductive event :=
 | EvGarble (t s seed : nat)
 | EvRelease (t hi : nat)
-| EvEval (t hi : nat).
+| EvEval (t hi : nat)
+| EvGarbleFail (t site seed : nat).  (* goroutine t's Garble failed at error site [site] *)
 
 Fixpoint index_of (x : nat) (l : list nat) : option nat :=
   match l with
@@ -287,6 +309,16 @@ Definition replay_event (N : nat) (st : state) (e : event) : option state :=
       end
   | EvRelease t hi =>
       match run_call 3 t 0 (set_prog st t (ORelease hi)) with
+      | Some st1 => if exclusive N st1 then Some st1 else None
+      | None => None
+      end
+  | EvGarbleFail t site seed =>
+      (* which scratch the failed call had is not observable: the replay lets it create a new
+         one (always possible), which then sits in the pool; the harness reserves a scratch
+         number for it so that the numbering stays aligned *)
+      let st0 := set_prog st t (OGarbleFail seed site) in
+      let ch := length (match s_ptr st0 with Some p => s_pool st0 p | None => [] end) in
+      match run_call 6 t ch st0 with
       | Some st1 => if exclusive N st1 then Some st1 else None
       | None => None
       end
